@@ -281,11 +281,53 @@ class LydsApi(_Base):
         return L
 
 
+def merge2_trigger(ops, place):
+    """index of the first `m` op that runs lyds_merge_nodes2() with nothing to move to the back (known finding
+    lyds-merge2-next-uninit: *next_p is then read uninitialised), found by simulating the keys only:
+    the destination list has no tree, the chain's leader carries one, and no chain key is greater than the last
+    destination key; the chain has at least two nodes (otherwise lyd_insert_child is a plain insert)"""
+    keys, has_tree, chain, chain_tree = [], False, None, False
+    for i, op in enumerate(ops):
+        arg = int(op[1:]) if len(op) > 1 else 0
+        if op[0] == "i":
+            has_tree = has_tree or len(keys) >= 1
+            keys = sorted(keys + [arg])
+        elif op[0] in "du":
+            if 0 <= arg < len(keys):
+                keys = keys[:arg] + keys[arg + 1:]
+                if not keys:
+                    has_tree = False
+        elif op[0] == "s":
+            if chain is None and 0 <= arg < len(keys):
+                if arg == 0:
+                    chain, chain_tree, keys, has_tree = keys, has_tree, [], False
+                else:
+                    chain, chain_tree, keys = keys[arg:], False, keys[:arg]
+        elif op[0] == "m":
+            if chain is not None:
+                total = len(chain) + (1 if place[1] == "2" else 0)
+                if keys:
+                    if not has_tree and chain_tree and total >= 2 and max(chain) <= keys[-1]:
+                        return i
+                    keys, has_tree = sorted(keys + chain), True
+                else:
+                    keys, has_tree = chain, chain_tree
+                chain = None
+    return None
+
+
+def is_subseq(a, b):
+    it = iter(b)
+    return all(x in it for x in a)
+
+
 class SortedOrder:
     """C04 ordering kernel on the implementation alone: after every public editing call on a system-ordered (leaf-)list the
     read-only checker is quiet (links, red-black invariants, tree walk = sibling order, metadata on the leader, every
-    present instance found) and the instances are sorted by key with equal keys in insertion order; two permutations of
-    the same distinct keys give the same sequence"""
+    present instance found) and the sibling sequence is the one the abstract sequence semantics gives: insert = stable
+    insert by key, free/unlink = delete that position, lyd_unlink_siblings = keep the prefix (lyds_split), inserting the
+    split-off chain again = sorted union that keeps the destination instances in place (lyds_merge, not in the Coq model);
+    two permutations of the same distinct keys give the same sequence"""
     name = "sorted-order"
     driver = "t_sorted"
 
@@ -309,23 +351,95 @@ class SortedOrder:
                     ops.append("d%d" % rng.randrange(live))
                     live -= 1
             L.append("lyds\t%s\t%s\t1\t%s" % (t, p, " ".join(ops)))
+        # split / merge histories
+        import vlib
+        skip_known = any(k.get("tag") == "lyds-merge2-next-uninit" and k.get("status") == "known" for k in vlib.load_known())
+        for _ in range(int((600 if tier == "thorough" else 60) * scale)):
+            t, p = rng.choice(TYPES), rng.choice(PLACES)
+            nk = rng.choice([3, 6, 40])
+            ops = []
+            live, chain = 0, 0
+            for _ in range(rng.choice([8, 25, 80])):
+                x = rng.random()
+                if x < 0.5 or live == 0 and not chain:
+                    ops.append("i%d" % rng.randrange(-(nk // 2), nk - nk // 2))
+                    live += 1
+                elif x < 0.62 and live:
+                    ops.append("d%d" % rng.randrange(live))
+                    live -= 1
+                elif x < 0.8 and live and not chain:
+                    i = rng.choice([0, 0, live - 1, rng.randrange(live)])
+                    ops.append("s%d" % i)
+                    chain = live - i
+                    live = i
+                elif chain:
+                    ops.append("m")
+                    live += chain
+                    chain = 0
+                else:
+                    ops.append("q%d" % rng.randrange(-(nk // 2), nk - nk // 2))
+            if skip_known and merge2_trigger(ops, p) is not None:
+                # runs into the known finding lyds-merge2-next-uninit (uninitialised read: it can damage the heap of the
+                # driver process and make LATER cases fail); the finding is replayed from its recorded witness instead.
+                # Histories of this kind are generated again as soon as the entry is removed from known_findings.d/sorted.json
+                continue
+            L.append("lyds\t%s\t%s\t1\t%s" % (t, p, " ".join(ops)))
         return L
 
     def judge(self, line, out):
+        j = self.judge1(line, out)
+        if j:
+            # a failure at or after a merge that reads the uninitialised *next_p belongs to that known finding
+            f = line.split("\t")
+            t = merge2_trigger(f[-1].split(" "), f[2])
+            m = re.match(r"op (\d+) ", j[1])
+            if t is not None and (not m or int(m.group(1)) >= t):
+                return ("lyds-merge2-next-uninit", j[1])
+        return j
+
+    def judge1(self, line, out):
         f = line.split("\t")
         ops = f[-1].split(" ")
         j = judge_tokens("lyds", ops, out)
         if j:
             return j
-        for i, tok in enumerate(out.split(" ")):
-            s = seq_of("lyds", split_tok(tok)[1])
-            if s is None:
-                continue
+        prev, chain, nid = [], None, 0
+        toks = out.split(" ")
+        if len(toks) != len(ops):
+            return ("sorted-result", "%d answers for %d ops" % (len(toks), len(ops)))
+        for i, (op, tok) in enumerate(zip(ops, toks)):
+            res, dump, _ = split_tok(tok)
+            s = seq_of("lyds", dump)
             try:
-                pairs = [tuple(int(v) for v in x.split(".")) for x in s]
-            except ValueError:
-                return ("sorted-order", "op %d: %s" % (i, s))
-            # only i / d ops: identities grow with the insertion time
-            if pairs != sorted(pairs):
-                return ("sorted-order", "op %d (%s): sequence %s is not the stable sorted one" % (i, ops[i], s))
+                cur = [tuple(int(v) for v in x.split(".")) for x in s]
+            except (ValueError, TypeError):
+                return ("sorted-order", "op %d (%s): %s" % (i, op, s))
+            arg = int(op[1:]) if len(op) > 1 else 0
+            exp = None
+            if op[0] == "i":
+                new = (arg, nid)
+                nid += 1
+                pos = max([q + 1 for q, e in enumerate(prev) if e[0] <= arg] + [0])
+                exp = prev[:pos] + [new] + prev[pos:]
+            elif op[0] in "du":
+                exp = prev[:arg] + prev[arg + 1:] if 0 <= arg < len(prev) else prev
+            elif op[0] == "s":
+                if chain is None and 0 <= arg < len(prev) and res == "-":
+                    exp, chain = prev[:arg], prev[arg:]
+                else:
+                    exp = prev
+            elif op[0] == "m":
+                if chain is not None and res == "+":
+                    if sorted(cur) != sorted(prev + chain) or not is_subseq(prev, cur) or \
+                            [e[0] for e in cur] != sorted(e[0] for e in cur):
+                        return ("sorted-merge", "op %d (m): %s + %s gave %s" % (i, prev, chain, cur))
+                    chain = None
+                    exp = cur
+                else:
+                    exp = prev
+            else:
+                exp = prev
+            if cur != exp:
+                return ("sorted-order", "op %d (%s): sequence %s, expected %s" % (i, op, cur, exp))
+            prev = cur
         return None
